@@ -352,7 +352,13 @@ def check_dist (c):
         zm, zd = complex (mm.sources [0].impedance), complex (md.sources [0].impedance)
         j.judge ('monopole=dipole/2', abs (zm - zd / 2) / abs (zd / 2), tol, 'loaded monopole (%s, grounded at end %d) %r, half the loaded dipole %r' % (kind, 2 if rev else 1, zm, zd / 2), key = 'monopole-half-dipole')
         return dict (status = 'violation' if j.viol else 'held', sig = 'dist|mono|%s|rev%d' % (kind, rev), nontrivial = True, margin = j.worst, monitors = j.mon, violations = j.viol)
-    spec = gen.clean (base_model (rng))
+    # (every fifth structure with an arc or a helix: the conductor a pulse represents is then two half segments that
+    # are not in line)
+    rc   = np.random.default_rng ([c ['seed'], 85, c ['i']])
+    spec = (gen.curve_spec (rc) if rc.random () < 0.2 else None) or base_model (rng)
+    if not spec.get ('src'):
+        gen.add_sources (rc, spec, nmax = 1)
+    spec = gen.clean (spec)
     for i, g in enumerate (spec ['geo']):
         g ['tag'] = i + 1
         g ['taper'] = None
